@@ -31,11 +31,14 @@ class Diverged(BaseException):
   """the operation used more than CPU_LIMIT seconds of CPU time: it does not return"""
 
 
-CPU_LIMIT = 3.0
+CPU_LIMIT = 0.5          # a parse takes ~30 microseconds
+MAX_DIVERGED = 4         # per worker process; afterwards inputs are answered "Diverged" unrun
+_diverged = [0]
 
 
 def _on_alarm(signum, frame):
-  raise Diverged("no result after %.0f s of CPU time" % CPU_LIMIT)
+  _diverged[0] += 1
+  raise Diverged("no result after %.1f s of CPU time" % CPU_LIMIT)
 
 
 signal.signal(signal.SIGVTALRM, _on_alarm)
@@ -45,6 +48,10 @@ signal.signal(signal.SIGVTALRM, _on_alarm)
 def deadline():
   """divergence guard: CPU-time budget for one operation of the code under test (BaseException, so
   that no `except Exception` inside POX swallows it)"""
+  if _diverged[0] >= MAX_DIVERGED:
+    # the code under test has been seen not to return several times in this process: do not
+    # spend the budget again on every further input (the run is failing anyway)
+    raise Diverged("not run: %d earlier operations did not return" % _diverged[0])
   signal.setitimer(signal.ITIMER_VIRTUAL, CPU_LIMIT)
   try:
     yield
@@ -138,8 +145,14 @@ class Channel(object):
     """Deliver `frame` as packet-in data; returns the handler's record."""
     del self.got[:]
     n = len(self.sock.out)
-    with deadline():
-      self._feed(rb.packet_in(rb.NO_BUFFER, len(frame), 1, 0, frame))
+    try:
+      with deadline():
+        self._feed(rb.packet_in(rb.NO_BUFFER, len(frame), 1, 0, frame))
+    except Diverged as e:          # raised outside the handler (or not run at all)
+      self.sock.inq = []
+      self.con.buf = b""
+      self.got[:] = [{"event": None, "exc": ("Diverged", str(e), where(e))}]
+      return self.got[0]
     if len(self.got) != 1:
       raise Machinery("C15 env: %d PacketIn events for one OFPT_PACKET_IN" % len(self.got))
     rec = self.got[0]
